@@ -13,6 +13,10 @@ P = "param.parameterized."
 def run(ctx):
     ctx.rule("R17.a", "__setstate__ rebuilds every method-caller watcher as _m_caller(self, name), i.e. it assumes the object HOLDING the watcher owns the method; "
                       "every installer of such a caller must therefore register _m_caller(X, ...) on X itself", floor=1)
+    ctx.rule("R17.e", "__setstate__ re-creates the Watcher tuples of a copy, so (i) it rebinds a bound-method callback by name only when that method's owner IS the watched instance "
+                      "(identity, not class membership) and (ii) unregistering a watcher compares by value (list.remove), never by identity", floor=2)
+    ctx.rule("R17.f", "a copy starts outside any batch/trigger scope of the original: the transient dispatcher state (parameters_state) is reset after the saved attributes "
+                      "were restored, or is excluded from the saved state", floor=1)
     ctx.rule("R17.b", "no nested function / lambda reaches a watcher that param itself installs (closures cannot be pickled and are shared, not copied, by deepcopy)", floor=3)
     ctx.rule("R17.c", "state tables agree: every slot of _InstancePrivate/_ClassPrivate is assigned on every path of __init__ (getstate reads each), "
                       "their getstate/setstate iterate __slots__, Parameter.__getstate__ iterates _all_slots_", floor=5)
@@ -134,7 +138,55 @@ def run(ctx):
     fresh = [n for n in sc.live_nodes() if n.kind == "stmt" and isinstance(n.ast, ast.Assign) and any(norm(t) == "self._param__private" for t in n.ast.targets)
              and isinstance(n.ast.value, ast.Call) and norm(n.ast.value.func) == "_InstancePrivate"]
     ok = bool(false_first and true_last and restores and fresh) and all(sc.dominates(fresh[0], r) for r in restores) \
-        and all(sc.dominates(false_first[0], r) for r in restores) and all(any(x is true_last[0] for x in sc.reachable_from([r])) for r in restores) \
-        and not any(any(x is r for x in sc.reachable_from([true_last[0]])) for r in restores)
+        and all(any(sc.dominates(ff, r) for ff in false_first) for r in restores) \
+        and all(any(any(x is tl for x in sc.reachable_from([r])) for tl in true_last) for r in restores) \
+        and not any(any(x is r for x in sc.reachable_from([tl])) for r in restores for tl in true_last)
     (ctx.ok if ok else ctx.fail)("R17.d", ss, ss.node, "fresh private namespace -> uninitialized -> restore every attribute -> initialized" if ok else
                                  "Parameterized.__setstate__ no longer restores every saved attribute between `initialized = False` and `initialized = True` on a fresh private namespace")
+
+    # ---------------------------------------------------------------- R17.e
+    from engine.cfg import decompose
+    reb = [n for n in sc.live_nodes() if n.kind == "stmt" and isinstance(n.ast, ast.Assign) and isinstance(n.ast.value, ast.Call)
+           and norm(n.ast.value.func) == "getattr" and len(n.ast.value.args) == 2 and norm(n.ast.value.args[0]) == "self" and "__name__" in norm(n.ast.value.args[1])]
+    if not reb:
+        ctx.info("R17.e", ss, ss.node, "__setstate__ no longer rebinds bound-method callbacks by name")
+    for n in reb:
+        ok = False
+        for e, t in sc.conditions(n):
+            if t is True and isinstance(e, ast.Compare) and isinstance(e.ops[0], ast.Is):
+                sides = {norm(e.left), norm(e.comparators[0])}
+                if any(x.startswith("get_method_owner(") for x in sides) and any(x.endswith(".inst") for x in sides):
+                    ok = True
+        if ok:
+            ctx.ok("R17.e", ss, n, "rebinding by name is guarded by `get_method_owner(fn) is watcher.inst`")
+        else:
+            ctx.fail("R17.e", ss, n, "a bound-method callback is re-bound to the copy although its owner is not (by identity) the watched instance: a callback that belongs to "
+                                     "another object of the same class is redirected to the copy itself", key=ss.qualname + "::rebinding-not-by-identity",
+                     input="leader.param.watch(follower.follow, 'a'); c = copy.deepcopy(leader); c.a = 7 -> runs c.follow, the copied follower is never notified")
+    rw = ctx.repo.func(P + "Parameters._register_watcher")
+    ident = [c for c in ast.walk(rw.node) if isinstance(c, ast.Compare) and isinstance(c.ops[0], (ast.Is, ast.IsNot))
+             and "watcher" in {norm(c.left), norm(c.comparators[0])}]
+    if ident:
+        ctx.fail("R17.e", rw, ident[0], "_register_watcher removes a watcher by identity (`%s`), but __setstate__ re-creates every Watcher tuple of a copy: a handle stored on the object "
+                                        "is equal to, not identical with, the registered watcher, so unwatch on the copy removes nothing" % norm(ident[0]),
+                 key=rw.qualname + "::remove-by-identity",
+                 input="self._h = self.param.watch(...); c = copy.deepcopy(obj); c.param.unwatch(c._h) -> 'No such watcher', callback still active")
+    else:
+        ctx.ok("R17.e", rw, rw.node, "watchers are (un)registered through list methods (remove compares by value)")
+
+    # ---------------------------------------------------------------- R17.f
+    resets = [n for n in sc.live_nodes() if n.kind == "stmt" and isinstance(n.ast, ast.Assign)
+              and any(isinstance(t, ast.Attribute) and t.attr == "parameters_state" for t in n.ast.targets)]
+    gs = ctx.repo.method(P + "_InstancePrivate", "__getstate__")
+    excluded = "parameters_state" in norm(gs.node) and ("!=" in norm(gs.node) or "not in" in norm(gs.node))
+    after = [r for r in resets if restores and all(any(x is r for x in sc.reachable_from([rs])) for rs in restores)
+             and not any(any(x is rs for x in sc.reachable_from([r])) for rs in restores)]
+    idle = [r for r in after if isinstance(r.ast.value, ast.Dict) and any(
+        isinstance(k, ast.Constant) and k.value == "BATCH_WATCH" and isinstance(v, ast.Constant) and v.value is False for k, v in zip(r.ast.value.keys, r.ast.value.values))]
+    if idle or excluded:
+        ctx.ok("R17.f", ss, (idle or [ss.node])[0], "the copy's dispatcher state is %s" % ("reset to idle after the restore" if idle else "not part of the saved state"))
+    else:
+        ctx.fail("R17.f", ss, ss.node, "the saved private namespace carries the original's transient dispatcher state (batching flag, queued events) into the copy and nothing resets it: "
+                                       "a copy taken while a batch is open keeps BATCH_WATCH=True forever and its watchers never fire again",
+                 key=ss.qualname + "::transient-state-copied",
+                 input="with batch_call_watchers(p): p.a = 1; c = copy.deepcopy(p)   ->   c.a = 7 never runs c's depends(watch=True) method")
